@@ -283,23 +283,62 @@ Theorem window_boundary_rule cur next now k (v : A) :
 Proof. reflexivity. Qed.
 
 (* window_when: the first notification (element or completion) of the current closing
-   observable closes the window, opens the next and calls the closing mapper again *)
+   observable closes the window, opens the next and calls the closing mapper again
+   (guarded: only if the underlying disposable has not been released meanwhile) *)
 Theorem window_when_rule mapper s now k (e : ev A) : (forall z, e <> Err z) ->
   exists c f,
     x_step (x_window_when (A:=A) (B:=B) mapper) s now (ISrc (S k) e)
-    = (fst (fst (ww_arm (A:=A) (B:=B) mapper (WwSt (ww_next s) (S (ww_next s)) (ww_calls s) (ww_closing s)))),
+    = (fst (fst (ww_arm (A:=A) (B:=B) true mapper (WwSt (ww_next s) (S (ww_next s)) (ww_calls s) (ww_closing s)))),
        [CWin (ww_cur s) Done; CHand (ww_next s) 0; CUnsub (S k)] ++ c, f)
-    /\ f = snd (ww_arm (A:=A) (B:=B) mapper (WwSt (ww_next s) (S (ww_next s)) (ww_calls s) (ww_closing s))).
+    /\ f = snd (ww_arm (A:=A) (B:=B) true mapper (WwSt (ww_next s) (S (ww_next s)) (ww_calls s) (ww_closing s))).
 Proof.
   intros He. cbn [x_step x_window_when].
-  destruct (ww_arm (A:=A) (B:=B) mapper (WwSt (ww_next s) (S (ww_next s)) (ww_calls s) (ww_closing s))) as [[s' c] f] eqn:E.
+  destruct (ww_arm (A:=A) (B:=B) true mapper (WwSt (ww_next s) (S (ww_next s)) (ww_calls s) (ww_closing s))) as [[s' c] f] eqn:E.
   destruct e as [x|z|]; [| exfalso; eapply He; reflexivity |]; cbn [fst snd]; eauto.
 Qed.
 
-(* a raising closing mapper ends the outer sequence with that error (the window stays open) *)
-Theorem window_when_mapper_raises mapper s e :
-  mapper (ww_calls s) = Raise e -> snd (ww_arm (A:=A) (B:=B) mapper s) = Fail e.
+(* ... when that call returns: the new closing observable is subscribed behind
+   `if d.is_disposed: return` ([CSubLive]: nothing once the runner has released) *)
+Theorem window_when_rule_ok mapper s now k (e : ev A) u : (forall z', e <> Err z') ->
+  mapper (ww_calls s) = Ok u ->
+  snd (fst (x_step (x_window_when (A:=A) (B:=B) mapper) s now (ISrc (S k) e)))
+  = [CWin (ww_cur s) Done; CHand (ww_next s) 0; CUnsub (S k); CSubLive (S (ww_calls s))]
+  /\ snd (x_step (x_window_when (A:=A) (B:=B) mapper) s now (ISrc (S k) e)) = Cont.
+Proof.
+  intros He H. cbn [x_step x_window_when]. unfold ww_arm. cbn [ww_calls ww_cur]. rewrite H.
+  destruct e as [x|z'|]; [| exfalso; eapply He; reflexivity |]; split; reflexivity.
+Qed.
+
+(* a raising closing mapper ends the outer sequence with that error ... *)
+Theorem window_when_mapper_raises gd mapper s e :
+  mapper (ww_calls s) = Raise e -> snd (ww_arm (A:=A) (B:=B) gd mapper s) = Fail e.
 Proof. intros H. unfold ww_arm. rewrite H. reflexivity. Qed.
+
+(* ... after the current window got it: nothing else is commanded (no new closing subscription) *)
+Theorem window_when_mapper_raises_window gd mapper s e :
+  mapper (ww_calls s) = Raise e -> snd (fst (ww_arm (A:=A) (B:=B) gd mapper s)) = [CWin (ww_cur s) (Err e)].
+Proof. intros H. unfold ww_arm. rewrite H. reflexivity. Qed.
+
+(* the whole handler of a firing closing observable when the next mapper call raises: the window
+   just handed ([ww_next s]) is the one that gets the error, before the outer *)
+Theorem window_when_rule_raises mapper s now k (e : ev A) z : (forall z', e <> Err z') ->
+  mapper (ww_calls s) = Raise z ->
+  snd (fst (x_step (x_window_when (A:=A) (B:=B) mapper) s now (ISrc (S k) e)))
+  = [CWin (ww_cur s) Done; CHand (ww_next s) 0; CUnsub (S k); CWin (ww_next s) (Err z)]
+  /\ snd (x_step (x_window_when (A:=A) (B:=B) mapper) s now (ISrc (S k) e)) = Fail z.
+Proof.
+  intros He H. cbn [x_step x_window_when]. unfold ww_arm. cbn [ww_calls ww_cur]. rewrite H.
+  destruct e as [x|z'|]; [| exfalso; eapply He; reflexivity |]; split; reflexivity.
+Qed.
+
+(* inside subscribe(): window 0 is handed, the source subscribed, then the first mapper call *)
+Theorem window_when_start mapper :
+  snd (fst (x_start (x_window_when (A:=A) (B:=B) mapper)))
+  = [CHand 0%nat 0; CSub 0%nat]
+    ++ match mapper 0%nat with Ok _ => [CSub 1%nat] | Raise z => [CWin 0%nat (Err z)] end
+  /\ snd (x_start (x_window_when (A:=A) (B:=B) mapper))
+     = match mapper 0%nat with Ok _ => Cont | Raise z => Fail z end.
+Proof. cbn [x_start x_window_when]. unfold ww_arm. cbn [ww_calls ww_cur]. destruct (mapper 0%nat); split; reflexivity. Qed.
 
 (* window_toggle: an opening opens a new window (and subscribes its closing observable) *)
 Theorem window_toggle_open_rule mapper s now (v : A) :
